@@ -117,7 +117,7 @@ def _f9(case, failure):
             and mp >= 1e12)
 
 
-FINDINGS = {}  # F9 was repaired in /repo (e82a2ef); its witness stays as a regression case
+FINDINGS = {}  # F9 was repaired in /repo (9ea056c); its witness stays as a regression case
 
 
 def fixed_cases(tier):
